@@ -218,8 +218,8 @@ func prefilterFunc(pattern string) func(string) bool {
 		// A literal is the prefix/suffix constraint only when it survived
 		// filterShort (len >= 2), meaning it IS the first/last literal in the
 		// pattern and not replaced by a longer one that appeared elsewhere.
-		usePrefix := hasBeginAnchor(re) && len(origFirst) >= 2
-		useSuffix := hasEndAnchor(re) && len(origLast) >= 2
+		usePrefix := len(origFirst) >= 2 && literalAfterBeginAnchor(re, caseInsensitive) == origFirst
+		useSuffix := len(origLast) >= 2 && literalBeforeEndAnchor(re, caseInsensitive) == origLast
 		if !usePrefix && !useSuffix {
 			// No anchor: sort longest-first for best early exit.
 			slices.SortFunc(filtered, func(a, b string) int { return len(b) - len(a) })
@@ -1019,6 +1019,31 @@ func hasEndAnchor(re *syntax.Regexp) bool {
 	return false
 }
 
+// literalAfterBeginAnchor returns the literal that immediately follows a leading \A
+// (the only literal that is guaranteed to sit at position 0), or "" if there is none.
+func literalAfterBeginAnchor(re *syntax.Regexp, ci bool) string {
+	for re.Op == syntax.OpCapture {
+		re = re.Sub[0]
+	}
+	if re.Op != syntax.OpConcat || len(re.Sub) < 2 || re.Sub[0].Op != syntax.OpBeginText {
+		return ""
+	}
+	return rawLiteral(re.Sub[1], ci)
+}
+
+// literalBeforeEndAnchor returns the literal that immediately precedes a trailing \z
+// (the only literal that is guaranteed to end the input), or "" if there is none.
+func literalBeforeEndAnchor(re *syntax.Regexp, ci bool) string {
+	for re.Op == syntax.OpCapture {
+		re = re.Sub[0]
+	}
+	n := len(re.Sub)
+	if re.Op != syntax.OpConcat || n < 2 || re.Sub[n-1].Op != syntax.OpEndText {
+		return ""
+	}
+	return rawLiteral(re.Sub[n-2], ci)
+}
+
 // hasPrefixFoldASCII reports whether s begins with prefix (ASCII case-insensitive).
 // prefix must already be lowercase.
 func hasPrefixFoldASCII(s, prefix string) bool {
@@ -1124,8 +1149,8 @@ func buildCombinedPF(v combinedRequired, ci bool, re *syntax.Regexp) func(string
 
 	var allPF func(string) bool
 	if len(filteredAll) > 0 {
-		usePrefix := hasBeginAnchor(re) && len(origFirst) >= 2
-		useSuffix := hasEndAnchor(re) && len(origLast) >= 2
+		usePrefix := len(origFirst) >= 2 && literalAfterBeginAnchor(re, ci) == origFirst
+		useSuffix := len(origLast) >= 2 && literalBeforeEndAnchor(re, ci) == origLast
 		if !usePrefix && !useSuffix {
 			slices.SortFunc(filteredAll, func(a, b string) int { return len(b) - len(a) })
 		}
